@@ -16,6 +16,6 @@ CFG = {
         "a whole-daemon Stop (Shutdown with an empty beacon id, also when a chain hash is given) leaves the tables as they are; closing the listeners is outside the model",
         "unsynchronised reads of beaconProcesses in beaconExists/KeypairFor (data race) are outside the model",
     ],
-    "level_text": "Theorems C19_served_is_named, C19_known_hash_selects, C19_mismatch_refused, C19_neither_goes_to_default, C19_tables_step / C19_tables_consistent, C19_after_shutdown, C19_http, C19_hex_never_default, C19_http_alias_only_empty_path, C19_dkg_proxy hold for ALL histories of start-up / LoadBeacon / Shutdown / DKG-completion events and ALL requests (any id string incl. absent and default, any hash bytes incl. absent) over a model of readBeaconID, the daemon's beaconProcesses / chainHashes tables and the HTTP handler table written line by line from the Go code; C19_routes is re-checked by the kernel on every run over the endpoint table regenerated from internal/core (every DrandDaemon method taking a protobuf request resolves it before touching a process). The model is compared on every run with real DrandDaemon objects (real LoadBeacon / Shutdown / dkgCallback, real one-node chains producing randomness) on the full ids x hashes cross product after every event, and an independent monitor attributes every answer (chain info, identity, group, key, randomness, HTTP) to a chain by the key material in it.",
+    "level_text": "Theorems C19_served_is_named, C19_known_hash_selects, C19_mismatch_refused, C19_neither_goes_to_default, C19_tables_step / C19_tables_consistent, C19_after_shutdown, C19_http, C19_hex_never_default, C19_http_alias_only_empty_path, C19_dkg_proxy hold for ALL histories of start-up / LoadBeacon / Shutdown / DKG-completion events and ALL requests (any id string incl. absent and default, any hash bytes incl. absent) over a model of readBeaconID, the daemon's beaconProcesses / chainHashes tables and the HTTP handler table written line by line from the Go code; C19_routes is re-checked by the kernel on every run over the endpoint table regenerated from internal/core (every DrandDaemon method taking a protobuf request resolves it before touching a process). The model is compared on every run with real DrandDaemon objects (real LoadBeacon / Shutdown / dkgCallback, real one-node chains producing randomness) on the full ids x hashes cross product after every event, and an independent monitor attributes every answer (chain info, identity, group, key, randomness, HTTP) to a chain by the key material in it. The stub part also asks /health and /{hash}/health on a table of four chains with different periods and genesis times (one in the future) while the default entry is added, removed and moved: the expected round reported must be the named chain's own (monitor C19-http-health-of-another-chain).",
     "level_note": "Kernel + vm_compute; no axioms. Assumes distinct chains have distinct chain hashes (hypothesis of the theorems). Status responses carry no chain-identifying content and are attributed only through the routing helper; the Go runtime, gRPC and chi are not verified.",
 }
